@@ -3,6 +3,23 @@ NOTES = ("Contract-based deductive verification with CBMC 6.11 code contracts. K
          "Exit codes: 0 all obligations discharged, 1 VIOLATION, 2 UNDECIDED. See DESIGN.md.")
 
 CLAIMED = {
+    "C01": {
+        "text": ("partial, parametric in the number of detectors per ring N (one complete proof per N: every predefined scanner's N scraped "
+                 "from Scanner.cxx, all even N<=64 and further sizes up to 1024 (quick) / all even N<=1024 (thorough), plus N symbolic for even N<=64) - "
+                 "decided: (a) initialise_uncompressed_view_tangpos_to_det1det2 fills exactly [0,N/2) x [-N/2+1,N/2], each cell once, with the "
+                 "geometry's detector pair (specification in floor/wrap form), no out-of-range table write, too large tangential range reported as error; "
+                 "(b) initialise_det1det2_to_uncompressed_view_tangpos stores for every ordered pair d1!=d2 a bin of that table whose pair is (d1,d2) "
+                 "resp. (d2,d1) according to the orientation flag (loop contracts, ghost cell); (c) lemma: the pair->bin and bin->pair maps are mutual "
+                 "inverses, a pair is assigned to at most one bin, and the exchanged pair gets the same bin with the opposite flag; (d) the API functions "
+                 "get_det_num_pair_for_view_tangential_pos_num, get_view_tangential_pos_num_for_det_num_pair, get_bin_for_det_pair, "
+                 "get_bin_for_det_pos_pair, get_det_pair_for_bin, get_det_pos_pair_for_bin against contracts taken from the property (view mashing, "
+                 "exchange => rings exchanged and TOF index negated; TOF mashing round((float)t/f) equals the integer nearest-multiple rule for each "
+                 "mashing factor f, all |t|<2^20); (e) lemmas over those contracts: exchanging the detectors gives the same bin with negated TOF index and "
+                 "the same ordered ring-pair lookup; uncompressed bin -> detection position pair -> bin is the identity. Not decided: ring pair <-> "
+                 "(segment, axial position) tables, get_all_det_pos_pairs_for_bin, span/segment construction, Blocks/Generic classes."),
+        "note": ("trusted: cbmc 6.11.0 + kissat/MiniSat; lookup tables are projected onto one nondeterministic ghost cell; readers of a table see the "
+                 "filler's postcondition; ring-pair functions are assumed contracts at this level; N and the TOF mashing factor are swept as constants"),
+    },
     "C11": {
         "text": ("partial - clauses decided: VectorWithOffset<T> representation invariant preserved and abstract view (index range + "
                  "every element via a ghost index) specified for each operation under contract; out-of-range at() and "
@@ -53,7 +70,7 @@ CLAIMED = {
 
 _PENDING = "claimed in DESIGN.md but the check is not built yet in this commit; will move to checks when it exists"
 NOT_APPLICABLE = {
-    "C01": _PENDING, "C02": _PENDING, "C08": _PENDING, "C10": _PENDING, "C20": _PENDING,
+    "C02": _PENDING, "C08": _PENDING, "C10": _PENDING, "C20": _PENDING,
     "C04": "linearity/adjointness/additivity are equalities up to floating-point reassociation between long accumulations through virtual projector classes; bit-precise CBMC cannot state 'up to rounding' compositionally nor close the Siddon/interpolation loops; no leaf contract decides it",
     "C05": "value/gradient/Hessian are float sums over all bins with log(), reached only through virtual objective-function/projector objects; CBMC's libm model leaves log unconstrained; element-wise kernels do not decide the textbook equality",
     "C07": "EM update is spread over array expressions, back projection and sensitivity caches behind virtual calls; monotonicity/count preservation are real-analysis facts that do not survive bit-precise float semantics; the schedule part of restartability is decided under C06",
